@@ -8,17 +8,19 @@ set -u
 export GOFLAGS=-mod=mod GOPROXY=off GOSUMDB=off GOTOOLCHAIN=local; unset GOWORK
 HERE=/verif
 ( cd $HERE/checker && go build -o $HERE/bin/mqttverif . ) || exit 2
+# a private copy of the checker, so that a rebuild during the (long) run does not change it half-way
+BIN=$(mktemp /tmp/matrix_bin_XXXX); cp $HERE/bin/mqttverif $BIN
 WT=$(mktemp -d /tmp/matrix_XXXX); rmdir "$WT"
 git -C /repo worktree add -q "$WT" HEAD || exit 2
-trap 'git -C /repo worktree remove --force "$WT" 2>/dev/null; rm -rf "$WT" /tmp/matrix_ev' EXIT
+trap 'git -C /repo worktree remove --force "$WT" 2>/dev/null; rm -rf "$WT" /tmp/matrix_ev "$BIN"' EXIT
 if [ $# -gt 0 ]; then SEEDS="$*"; else SEEDS=$(ls $HERE/seeded | grep -E '^C[0-9]+-[0-9]+$' | sort -V); fi
 # baseline: the unchanged worktree must be silent
-$HERE/bin/mqttverif -repo "$WT" -prop all -known $HERE/known_findings.json -evidence /tmp/matrix_ev > /tmp/matrix_base.log 2>&1
+$BIN -repo "$WT" -prop all -known $HERE/known_findings.json -evidence /tmp/matrix_ev > /tmp/matrix_base.log 2>&1
 if grep -q '^VIOLATION' /tmp/matrix_base.log; then echo "baseline not silent" >&2; grep '^VIOLATION' /tmp/matrix_base.log >&2; exit 1; fi
 OUT=/tmp/matrix_rows.txt; : > $OUT
 for s in $SEEDS; do
   ( cd "$WT" && git checkout -q -- . && git clean -fdq && git apply $HERE/seeded/$s/patch.diff ) || { echo "$s: patch does not apply" >&2; echo "$s|PATCH-FAILED|" >> $OUT; continue; }
-  $HERE/bin/mqttverif -repo "$WT" -prop all -known $HERE/known_findings.json -evidence /tmp/matrix_ev > /tmp/matrix_$s.log 2>&1
+  $BIN -repo "$WT" -prop all -known $HERE/known_findings.json -evidence /tmp/matrix_ev > /tmp/matrix_$s.log 2>&1
   own=${s%%-*}
   hits=$(grep '^VIOLATION' /tmp/matrix_$s.log | sed -E 's/.*property=(C[0-9]+).*/\1/' | sort -u | tr '\n' ' ')
   rules=$(grep -A1 '^VIOLATION' /tmp/matrix_$s.log | grep 'rule=' | sed -E 's/^ +rule=([^ ]+ [^ ]*) .*/\1/' | sort -u | tr '\n' ';')
